@@ -693,7 +693,7 @@ def judge_drive(ctx, h, res, pm):
             bad = drop_related(bad, rel)
             bad, fnd, _ = attribute(bad, before, after, use2, use2, warn, phases, extra, "driven step %d" % k)
             out["findings"] += [f + (1,) for f in fnd]
-            if bad and "kinetics" in use2 and any(b["before"] + b["added"] < -1e-15 for b in bad):
+            if bad and "kinetics" in use2 and (rc_step == 3 or any(b["before"] + b["added"] < -1e-15 for b in bad)):
                 out["findings"].append((KEY_NEG, "driven step %d: reaction removes more than the cell holds; %s" % (k, json.dumps(bad[:3])), 1))
                 bad = []
             if bad:
